@@ -39,7 +39,7 @@ from .model import *
 from .trust_region import *
 from .util import *
 
-__all__ = ['Controller', 'ExitInformation', 'EXIT_SLOW_WARNING', 'EXIT_MAXFUN_WARNING', 'EXIT_SUCCESS',
+__all__ = ['Controller', 'ExitInformation', 'EXIT_TR_INCREASE_WARNING', 'EXIT_SLOW_WARNING', 'EXIT_MAXFUN_WARNING', 'EXIT_SUCCESS',
            'EXIT_INPUT_ERROR', 'EXIT_TR_INCREASE_ERROR', 'EXIT_LINALG_ERROR', 'EXIT_FALSE_SUCCESS_WARNING',
            'EXIT_AUTO_DETECT_RESTART_WARNING', 'EXIT_EVAL_ERROR']
 
